@@ -376,7 +376,7 @@ std::string randomGraphOp(NifFile& nif, std::mt19937_64& r) {
 	return a.done();
 }
 
-std::string fileAbstract(const std::string& bytes, NifFile* model, ContentIds& cids) {
+std::string fileAbstract(const std::string& bytes, NifFile* model, ContentIds& cids, NifFile* locator) {
 	HeaderInfo h = parseHeader(bytes);
 	JObj f;
 	f.add("parsed", h.ok).add("len", (long long) bytes.size()).add("hdrLen", (long long) h.hdrLen).add("nblocks", (long long) h.nblocks);
@@ -397,6 +397,18 @@ std::string fileAbstract(const std::string& bytes, NifFile* model, ContentIds& c
 			if (b) {
 				pi = putBlock(b, model->GetHeader());
 				havePi = true;
+			}
+		}
+		// an opaque block: where its references and string indices sit is known from a model that holds the same block under
+		// its real type (the file this one was derived from by relabelling type names)
+		if (havePi && locator && i < locator->GetHeader().GetNumBlocks() && dynamic_cast<NiUnknown*>(model->GetHeader().GetBlock<NiObject>(i))) {
+			NiObject* lb = locator->GetHeader().GetBlock<NiObject>(i);
+			if (lb && !dynamic_cast<NiUnknown*>(lb)) {
+				PutInfo lp = putBlock(lb, locator->GetHeader());
+				if (lp.bytes.size() == pi.bytes.size()) {
+					pi.wrefs = lp.wrefs;
+					pi.wstrs = lp.wstrs;
+				}
 			}
 		}
 		size_t sz = h.hasSizes ? (i < h.sizes.size() ? h.sizes[i] : 0) : (havePi ? pi.bytes.size() : 0);
